@@ -247,6 +247,7 @@ def replay_merge(ctx, doc, n):
     have = {k: [0 if pd.isna(got.loc[k, c]) else 7 for c in cols] for k in got.index}
     if have != {k: list(v) for k, v in want.items()} or not got.index.is_unique:
         ctx.violation(f"multimerge/not_the_join/{o['how']}", f"{desc}: rows {have} want {want}"[:500], rp)
+        return
     for i, (k, v) in enumerate(want.items()):
         for j, c in enumerate(cols):
             if v[j] and abs(float(got.loc[k, c]) - (100 * (j + 1) + (int(str(k).replace('key', '')) if isinstance(k, str) else k // 11))) > 1e-9:
